@@ -378,6 +378,24 @@ class MessageManager(interfaces.TokenInterface, interfaces.MessageManager):
         """Spawn a responder for an incoming request, or feed a long-running
         responder if one exists."""
 
+        key = (request.remote, request.token)
+        if key in self._piggyback_opportunities:
+            # (whether the new request is a CON or a NON one)
+            self.log.warning(
+                "New request came in while old request not"
+                " ACKed yet. Possible mismatch between EMPTY_ACK_DELAY"
+                " and EXCHANGE_LIFETIME. Sending the old request's empty"
+                " ACK right away to ward off any further confusion."
+            )
+            mid, old_handle = self._piggyback_opportunities.pop(key)
+            old_handle.cancel()
+            # The old request was a CON under its own message ID, and
+            # stays in need of an acknowledgement no matter what became
+            # of its token
+            self._send_empty_ack(
+                request.remote, mid, "Token reused before request was ACKed"
+            )
+
         if request.mtype == CON:
 
             def on_timeout(self, remote, token):
@@ -393,22 +411,6 @@ class MessageManager(interfaces.TokenInterface, interfaces.MessageManager):
                 request.remote,
                 request.token,
             )
-            key = (request.remote, request.token)
-            if key in self._piggyback_opportunities:
-                self.log.warning(
-                    "New request came in while old request not"
-                    " ACKed yet. Possible mismatch between EMPTY_ACK_DELAY"
-                    " and EXCHANGE_LIFETIME. Sending the old request's empty"
-                    " ACK right away to ward off any further confusion."
-                )
-                mid, old_handle = self._piggyback_opportunities.pop(key)
-                old_handle.cancel()
-                # The old request was a CON under its own message ID, and
-                # stays in need of an acknowledgement no matter what became
-                # of its token
-                self._send_empty_ack(
-                    request.remote, mid, "Token reused before request was ACKed"
-                )
             self._piggyback_opportunities[key] = (request.mid, handle)
 
         self.token_manager.process_request(request)
